@@ -610,8 +610,11 @@ theorem refs_payload_destroy (n : Str) : (templatePayload .destroy n).refs = [] 
 theorem strVal_payload (k : Kind) (n : Str) : (templatePayload k n).strVal = [] := by
   cases k <;> rfl
 theorem kvRefs_bulkBody (n : Str) : kvRefs (bodyName n, bulkBody n) = [schemaRef n] := by
-  simp [kvRefs, bulkBody, jsonContent, refObj, J.refs, refsKvs, refKey, J.strVal]
-  split <;> rfl
+  unfold kvRefs
+  have h1 : (bulkBody n).strVal = [] := rfl
+  have h2 : (bulkBody n).refs = [schemaRef n] := by
+    simp [bulkBody, jsonContent, refObj, J.refs, refsKvs, refKey, J.strVal]
+  simp only [h1, h2, ite_self, List.nil_append]
 
 /-- a value of a merged path dict: a template payload for one of the names `N`, or a `$ref`-free list (`parameters`) -/
 def TplVal (N : List Str) (v : J) : Prop :=
@@ -823,5 +826,121 @@ theorem bulkSchemas_norefs (ts : List Table) (h : ∀ t ∈ ts, refsKvs t.schema
     · cases hx
     · simp only [stripSchema, kvRefs_obj]; exact refsKvs_filter_nil _ _ (h t ht)
   · simp only [stripSchema, kvRefs_obj]; decide
+
+theorem construct_ok (k route' : Str) (pd pd' : Dict) (bodies : List (Str × J))
+    (h : construct k pd = .ok (route', pd', bodies)) : withParams k pd = .ok (route', pd') ∧ bodiesOf pd' = .ok bodies := by
+  unfold construct at h
+  split at h
+  · rename_i r1 p1 hw
+    split at h
+    · rename_i bs hb
+      simp only [Except.ok.injEq, Prod.mk.injEq] at h
+      obtain ⟨rfl, rfl, rfl⟩ := h
+      exact ⟨hw, hb⟩
+    · cases h
+  · cases h
+
+theorem Res.mono_bodies {rb rb' S paths paths' : Dict} {r : Str} (h : Res ⟨rb, S, paths⟩ r)
+    (hk : ∀ n, hasKey rb n = true → hasKey rb' n = true) : Res ⟨rb', S, paths'⟩ r := by
+  rcases h with ⟨n, rfl, hn, hs⟩ | ⟨n, rfl, hn, hb⟩
+  · exact Or.inl ⟨n, rfl, hn, hs⟩
+  · exact Or.inr ⟨n, rfl, hn, hk n hb⟩
+
+theorem bulkGroups_inv (N : List Str) (hN : ∀ n ∈ N, '/' ∉ n) (S : Dict)
+    (hS : ∀ n ∈ N, hasKey S n = true) (hSE : hasKey S serverError = true) (hSr : ∀ kv ∈ S, kvRefs kv = [])
+    (groups : List (Str × List RouteFn))
+    (hg : ∀ kg ∈ groups, ∀ r ∈ kg.2, ∃ k n, n ∈ N ∧ r.payload = templatePayload k n)
+    (rb paths rb' paths' : Dict) (hrun : bulkGroups groups rb paths = .ok (rb', paths'))
+    (hinv : Inv ⟨rb, S, paths⟩) : Inv ⟨rb', S, paths'⟩ := by
+  induction groups generalizing rb paths with
+  | nil =>
+    simp only [bulkGroups, Except.ok.injEq, Prod.mk.injEq] at hrun
+    obtain ⟨rfl, rfl⟩ := hrun
+    exact hinv
+  | cons kg rest ih =>
+    obtain ⟨k, g⟩ := kg
+    simp only [bulkGroups] at hrun
+    split at hrun
+    · rename_i pd hpd
+      split at hrun
+      · rename_i route' pd' bodies hc
+        obtain ⟨hw, hb⟩ := construct_ok _ _ _ _ _ hc
+        have htpl : ∀ kv ∈ pd, TplVal N kv.2 := by
+          intro kv hkv
+          obtain ⟨r, hr, hp⟩ := updateD_mem g pd hpd kv hkv
+          obtain ⟨k', n, hn, hpay⟩ := hg (k, g) List.mem_cons_self r hr
+          exact Or.inl ⟨k', n, hn, by rw [hp, hpay]⟩
+        have htpl' := withParams_tpl N _ _ _ _ htpl hw
+        obtain ⟨bs, hbs, hall, hrefs⟩ := bodiesOf_tpl N hN pd' htpl'
+        rw [hb] at hbs
+        simp only [Except.ok.injEq] at hbs
+        subst hbs
+        refine ih (fun kg hkg => hg kg (List.mem_cons_of_mem _ hkg)) _ _ hrun ?_
+        have hmono : ∀ n, hasKey rb n = true → hasKey (update rb bodies) n = true := fun n h => hasKey_update _ _ _ h
+        have hschema : ∀ n, (n ∈ N ∨ n = serverError) → Res ⟨update rb bodies, S, setKey paths route' (.obj pd')⟩ (schemaRef n) := by
+          intro n hn
+          rcases hn with hn | rfl
+          · exact Or.inl ⟨n, rfl, hN n hn, hS n hn⟩
+          · exact Or.inl ⟨serverError, rfl, slash_not_mem_serverError, hSE⟩
+        refine ⟨?_, ?_, hSr, hSE⟩
+        · intro kv hkv r hr
+          rcases mem_setKey _ _ _ _ hkv with hk | rfl
+          · exact (hinv.paths kv hk r hr).mono_bodies hmono
+          · rw [kvRefs_obj, mem_refsKvs] at hr
+            obtain ⟨kv', hkv', hr'⟩ := hr
+            rcases hrefs kv' hkv' r hr' with ⟨n, hn, rfl⟩ | ⟨n, hn, rfl, hmem⟩
+            · exact hschema n hn
+            · exact Or.inr ⟨bodyName n, rfl, slash_not_mem_bodyName n (hN n hn), hasKey_update_mem rb bodies _ hmem⟩
+        · intro kv hkv r hr
+          rcases mem_update _ _ kv hkv with hk | hk
+          · exact (hinv.bodies kv hk r hr).mono_bodies hmono
+          · obtain ⟨n, hn, rfl⟩ := hall kv hk
+            rw [kvRefs_bulkBody] at hr
+            simp only [List.mem_singleton] at hr
+            subst hr
+            exact hschema n (Or.inl hn)
+      · cases hrun
+    · cases hrun
+
+theorem genRoutes_payload (a : Str) (e : Entry) (r : RouteFn) (h : r ∈ genRoutes a e) : ∃ k, r.payload = templatePayload k e.name := by
+  unfold genRoutes at h
+  simp only [List.mem_append] at h
+  rcases h with (h | h) | h <;> split at h <;> simp at h <;> subst h
+  · exact ⟨.create, rfl⟩
+  · exact ⟨.read, rfl⟩
+  · exact ⟨.destroy, rfl⟩
+
+theorem bulkDoc_closed (app : Str) (ts : List Table) (es : List Entry) (routes : List RouteFn)
+    (hroutes : ∀ r ∈ routes, ∃ e ∈ es, ∃ a, r ∈ genRoutes a e)
+    (hname : ∀ e ∈ es, '/' ∉ e.name)
+    (hkey : ∀ e ∈ es, ∃ t ∈ ts, bulkKey t.name = e.name)
+    (hschema : ∀ t ∈ ts, refsKvs t.schema = [])
+    (d : Doc) (h : bulkDoc app ts routes = .ok d) : Inv d := by
+  unfold bulkDoc at h
+  split at h
+  · rename_i rb paths hrun
+    simp only [Except.ok.injEq] at h
+    subst h
+    refine bulkGroups_inv (es.map (·.name)) ?_ (bulkSchemas ts) ?_ (hasKey_bulkSchemas_server ts) (bulkSchemas_norefs ts hschema)
+      _ ?_ [] [] rb paths hrun ?_
+    · intro n hn
+      simp only [List.mem_map] at hn
+      obtain ⟨e, he, rfl⟩ := hn
+      exact hname e he
+    · intro n hn
+      simp only [List.mem_map] at hn
+      obtain ⟨e, he, rfl⟩ := hn
+      obtain ⟨t, ht, hk⟩ := hkey e he
+      rw [← hk]; exact hasKey_bulkSchemas_table ts t ht
+    · intro kg hkg r hr
+      have hmem : r ∈ routes := by
+        have := groupBy_mem _ kg hkg r hr
+        unfold ofApp at this
+        exact (List.mem_filter.mp this).1
+      obtain ⟨e, he, a, hgen⟩ := hroutes r hmem
+      obtain ⟨k, hk⟩ := genRoutes_payload a e r hgen
+      exact ⟨k, e.name, List.mem_map_of_mem (f := (·.name)) he, hk⟩
+    · exact ⟨fun kv hkv => nomatch hkv, fun kv hkv => nomatch hkv, bulkSchemas_norefs ts hschema, hasKey_bulkSchemas_server ts⟩
+  · cases h
 
 end OpenApi
